@@ -817,6 +817,49 @@ var witnesses = []witness{
 		}
 		return wantEq("a of row 7", w.q("select a from t where k = 7"), t("same key"))
 	}},
+	{id: "F93", props: []string{"C10", "C09", "C04"}, what: "a vacuum interrupted while deleting version objects left older ones listed under root/merged/, their nodes gone, out of every later vacuum's reach", run: func(w *wEnv) string {
+		w.mk("t", "k primary key, a", sqlh.TableOpts{EntriesPerNode: 2})
+		for k := 0; k < 10; k++ {
+			w.x("insert into t values(?,'v')", k)
+		}
+		for n := 0; n < 6; n++ {
+			w.x("update t set a=? where k<5", fmt.Sprint("u", n))
+		}
+		snap := w.store.Snapshot()
+		cutoff := time.Now().Add(time.Hour)
+		for k := 1; k < 60; k++ {
+			w.store.Restore(snap)
+			db := sqlh.Open()
+			var cl *fakes3.Client
+			sqlh.NextClient("v", func(c *fakes3.Client) { cl = c })
+			name := "v" + sqlh.Uniq()
+			r := sqlh.XS(db, sqlh.CreateSQL(sqlh.TableOpts{Name: name, Bucket: w.bucket, Prefix: "p", Columns: "k primary key, a", EntriesPerNode: 2}))
+			sqlh.NextClient("", nil)
+			if r != "ok" {
+				db.Close()
+				return "open: " + r
+			}
+			_, mm := cl.Counts()
+			cl.CrashAfter = mm + k
+			err := s3db.Vacuum(context.Background(), name, cutoff)
+			db.Close()
+			if err == nil {
+				break // the vacuum needs fewer than k mutations: every crash point has been tried
+			}
+			db2 := sqlh.Open()
+			name2 := "r" + sqlh.Uniq()
+			sqlh.XS(db2, sqlh.CreateSQL(sqlh.TableOpts{Name: name2, Bucket: w.bucket, Prefix: "p", Columns: "k primary key, a", EntriesPerNode: 2}))
+			err = s3db.Vacuum(context.Background(), name2, cutoff)
+			db2.Close()
+			if err != nil {
+				return fmt.Sprintf("vacuum after a vacuum that crashed after %d mutations: %v", k, err)
+			}
+			if d := danglingIn(w.store, "p/s3db-rows/root/"); len(d) > 0 {
+				return fmt.Sprintf("vacuum crashed after %d mutations, then a complete vacuum: still listed with missing nodes: %v", k, d[:min(len(d), 2)])
+			}
+		}
+		return ""
+	}},
 	{id: "F74", props: []string{"C15", "C02", "C06"}, what: "a write_time outside 1677..2262 was accepted and wrapped around", run: func(w *wEnv) string {
 		for _, ts := range []string{"9999-12-31 23:59:59", "2262-04-12 00:00:00", "1600-01-01 00:00:00", "1000-01-01 00:00:00"} {
 			if r := w.x("update s3db_conn set write_time=?", ts); !strings.HasPrefix(r, "ERR") {
